@@ -53,3 +53,20 @@ Proof. vm_compute. repeat split. Qed.
 
 Print Assumptions C04_package_json.
 Print Assumptions C04_deno_json.
+
+(* go.mod: no third party in the way - the text-level model of the parser reports exactly the requirements of
+   every file of the reference grammar (Spec/GoModFile.v: single-line requires, require blocks, any other lines,
+   with any indentation, separators, trailing blanks and // comments, over printable ASCII and tabs, LF-terminated) *)
+From VL Require Import Model.GoMod Spec.GoModFile Proofs.GoModProofs.
+Theorem C04_go_mod :
+  forall f, file_ok false f = true -> map nv2 (parse_go_mod (render f)) = declared_go_mod f.
+Proof. exact go_mod_exact. Qed.
+Example C04_go_mod_ex :
+  let f := [ LOther [109;111;100;117;108;101;32;109]; LOther [];
+             LRequire [] [32] [97;47;98] [9] [118;49;46;50;46;51] (mkTail [32] (Some [32;105;110;100;105;114;101;99;116]));
+             LOpen [] [32] []; LSpec [9] [99;47;100] [32;32] [118;48;46;49;46;48] (mkTail [32;9] None); LOther [9;47;47;32;120];
+             LClose [] (mkTail [32] (Some [32;101;110;100])); LOther [114;101;116;114;97;99;116;32;118;49;46;48;46;53] ] in
+  file_ok false f = true /\ declared_go_mod f = [([97;47;98], [118;49;46;50;46;51]); ([99;47;100], [118;48;46;49;46;48])]
+  /\ map nv2 (parse_go_mod (render f)) = declared_go_mod f.
+Proof. vm_compute. repeat split. Qed.
+Print Assumptions C04_go_mod.
